@@ -59,3 +59,9 @@ Lemma dispose_all_shape_known : DisposeAllShapeFound = true.
 Proof. reflexivity. Qed.
 Lemma throttle_wait_shape_known : ThrottleWaitShapeFound = true.
 Proof. reflexivity. Qed.
+
+(* round 6: reportStats and Bridge.cleanup were found and classified *)
+Lemma mapping_stats_shape_known : MappingStatsShapeFound = true.
+Proof. reflexivity. Qed.
+Lemma bridge_cleanup_shape_known : BridgeCleanupShapeFound = true.
+Proof. reflexivity. Qed.
